@@ -12,14 +12,14 @@ pub fn budget(tier: &str, prop: Prop) -> Budget {
     match prop {
         // C05's per-node work is dominated by the perturbation alphabet; its walk is smaller
         Prop::C05 => Budget {
-            core: scale(150_000, 30_000_000),
-            feature: scale(10_000, 1_000_000),
-            bench: scale(2_500, 150_000),
+            core: scale(300_000, 30_000_000),
+            feature: scale(20_000, 1_000_000),
+            bench: scale(3_000, 150_000),
             max_depth: 7,
         },
         _ => Budget {
-            core: scale(300_000, 30_000_000),
-            feature: scale(20_000, 2_000_000),
+            core: scale(600_000, 30_000_000),
+            feature: scale(40_000, 2_000_000),
             bench: scale(3_000, 200_000),
             max_depth: 8,
         },
@@ -57,7 +57,7 @@ pub fn run(args: &Args) -> i32 {
         sink: &sink,
         tables: Tables::new(if thorough { 50_000_000 } else { 6_000_000 }),
         collect: None,
-        perturb_per_seed: if prop == Prop::C05 { if thorough { 60 } else { 4 } } else { 0 },
+        perturb_per_seed: if prop == Prop::C05 { if thorough { 60 } else { 6 } } else { 0 },
         perturb_insert: !thorough,
     };
     let b = budget(&args.tier, prop);
